@@ -24,10 +24,17 @@ class LinesStub(object):
 
 
 class SourceStub(object):
-    def __init__(self, line, tree=None):
+    """the marked source: its cursor line and its tree - or, for a text that does not parse (`parses=False`), the SyntaxError the parser raises"""
+    def __init__(self, line, tree=None, parses=True):
         self.lines = LinesStub(line)
-        self.tree = tree
+        self._tree, self._parses = tree, parses
         self.filename = '<verif>'
+
+    @property
+    def tree(self):
+        if not self._parses:
+            raise SyntaxError('the marked text does not parse')
+        return self._tree
 
 
 def ident_run_claim(line, prefix):
@@ -177,10 +184,10 @@ def domain_chars(s, pred, lo=0):
 
 @harness('C12', 'supp.assistant.assist[prefix, from-branch]')
 def assist_prefix_from(run):
-    """cursor inside the module name of `from <module>` (no ' import ' yet): requires the text after `from ` to be made
+    """cursor inside the module name of `from <module>` (no ' import ' yet: the text does not parse): requires the text after `from ` to be made
     of identifier characters, dots and blanks (a prefix of a valid from-import); prefix == identifier run left of the cursor"""
     f = loader.load(MOD, 'assist', stubs=dict(
-        Source=lambda source, filename, position: SourceStub(source),
+        Source=lambda source, filename, position: SourceStub(source, parses=False),
         EvalCtx=lambda project: object(), re=ReStub(),
         get_marked_import=lambda tree: None, extract_scope=lambda source, project: object(),
         get_marked_atribute=lambda tree: None, get_marked_name=lambda tree: None,
@@ -204,16 +211,24 @@ def assist_prefix_from(run):
     def on_path(p, out):
         line = holder['line']
         if out[0] != 'ok':
+            if isinstance(out[1], SyntaxError):
+                return      # the line is not a bare `from <module>`: a text that does not parse raises SyntaxError (C08 allows exactly that)
             prove('no-exception(%s)' % type(out[1]).__name__, False, path=p)
             return
         prefix, props = out[1]
         if not (props and props[0] == '<packages>'):
             # ' import ' occurs in the line: not this branch
             return
+        holder['reached'] = holder.get('reached', 0) + 1
         claim = ident_run_claim(line, prefix)
         prove('prefix-is-identifier-run', claim if claim is not None else False,
               clause='prefix == longest run of identifier characters immediately left of the cursor', path=p)
     core.explore(body, on_path)
+
+    def reached(path):
+        prove('the-unfinished-import-branch-is-reached', holder.get('reached', 0) > 0, kind='lemma',
+              clause='some path takes the branch this contract is about (vacuity guard) [%d]' % holder.get('reached', 0), path=path)
+    core.explore(lambda: None, lambda p, out: reached(p))
 
 
 IMPORT_REPLAY = '''import sys; sys.path.insert(0, %(repo)r)
@@ -530,8 +545,11 @@ def assist_import_proposals(run):
             want_pkg, want_prefix = ('.' * level + rest.rsplit('.', 1)[0], rest.rsplit('.', 1)[1]) if '.' in rest else ('.' * level, rest)
 
             class Src2(object):
-                tree = None
                 lines = ['    from ' + text]
+
+                @property
+                def tree(self):
+                    raise SyntaxError('an unfinished import does not parse')
             del asked[:]
             try:
                 r = f2(Proj(), Src2(), (1, 9 + len(text)), 'f.py')
